@@ -433,6 +433,16 @@ def d_strings_attribute_not_utf8(m):
 
 
 @_dev
+def d_generated_looking_names(m):
+    """Values and nodes whose explicit names have the shape of the names the IR generates for unnamed objects."""
+    g = m.graph
+    g.node.add().CopyFrom(node("Neg", ["a"], ["val_0"], "node_Neg_0"))
+    g.node.add().CopyFrom(node("Abs", ["val_0"], ["val_1"], "node_Abs_1"))
+    g.node.add().CopyFrom(node("Relu", ["val_1"], ["val_2"], "node_2"))
+    g.output.add().CopyFrom(value_info("val_2", F()))
+
+
+@_dev
 def d_value_info_without_type(m):
     m.graph.value_info.add().CopyFrom(value_info("a", None, "only a doc string"))
 
